@@ -261,13 +261,60 @@ Definition view (s : store) (rmode smode : nat) : dstore :=
     (map (option_map (fun a => mkdann (option_map (id_str KAnn) (a_id a)) (a_data a) (a_kind a)
                                       (map (view_leaf s) (a_leaves a)))) (anns s)).
 
-(** * histories with intermediate saves: (9) writes the store (and flushes the stand-off files) *)
-Definition want_files (s : store) (rm sm : nat) : files :=
-  match canon (view s rm sm) with Some c => side_files c | None => [] end.
+(** * owners *)
+Definition sx_onat (o : option nat) : sx := match o with Some n => of_nat n | None => A (-1) end.
+Definition live_owners {X} (own : list (option nat)) (l : list (option X)) : sx :=
+  L (map (fun p => sx_onat (owner_of own (fst p))) (live l)).
+Definition sx_obs (c : cstore) (s : dstore) (ow : owners) : sx :=
+  L [sx_cstore c; L (map (fun p => L [sx_ostr (fst p); sx_str (snd p)]) (ow_subs ow));
+     live_owners (ow_res ow) (st_ress s); live_owners (ow_set ow) (st_sets s); live_owners (ow_ann ow) (st_anns s)].
+
+Fixpoint set_nth {X} (l : list X) (n : nat) (d v : X) : list X :=
+  match n, l with
+  | 0, [] => [v]
+  | 0, _ :: l' => v :: l'
+  | S n', [] => d :: set_nth [] n' d v
+  | S n', x :: l' => x :: set_nth l' n' d v
+  end.
+
+(** * histories: the operations of Run/StoreRun.v, plus
+      (9)                 save now
+      (10 n)              add_new_substore("sub<n>", "sub<n>.store.stam.json")
+      (11 kind h k)       associate_substore(item h of kind 0 resource / 1 dataset / 2 annotation, sub-store k) *)
+Definition SUB := LIT "sub".
+Definition APP_STORE := LIT ".store.stam.json".
+Definition hstep (st : store * owners) (o : sx) : store * owners :=
+  let '(s, ow) := st in
+  match sx_Z (sx_nth 0 o) with
+  | 10%Z =>
+      let nm := SUB ++ digits (N.of_nat (sx_nat (sx_nth 1 o))) in
+      (s, mkown (ow_subs ow ++ [(Some nm, nm ++ APP_STORE)]) (ow_res ow) (ow_set ow) (ow_ann ow))
+  | 11%Z =>
+      let h := sx_nat (sx_nth 2 o) in
+      let k := sx_nat (sx_nth 3 o) in
+      if negb (k <? length (ow_subs ow)) then (s, ow) else
+      match sx_Z (sx_nth 1 o) with
+      | 0%Z => match get_res s h with
+               | Some _ => (s, mkown (ow_subs ow) (set_nth (ow_res ow) h None (Some k)) (ow_set ow) (ow_ann ow))
+               | None => (s, ow) end
+      | 1%Z => match get_set s h with
+               | Some _ => (s, mkown (ow_subs ow) (ow_res ow) (set_nth (ow_set ow) h None (Some k)) (ow_ann ow))
+               | None => (s, ow) end
+      | _ => match get_ann s h with
+             | Some _ => (s, mkown (ow_subs ow) (ow_res ow) (ow_set ow) (set_nth (ow_ann ow) h None (Some k)))
+             | None => (s, ow) end
+      end
+  | _ => (fst (step s (op_of_sx o)), ow)
+  end.
+
+(* the files the store should have on disk: stand-off members and sub-store documents *)
+Definition want_files (rm sm : nat) (st : store * owners) : files :=
+  match encode_o (view (fst st) rm sm) (snd st) with Some d => snd d | None => [] end.
+Definition sub_names (st : store * owners) : list str := map snd (ow_subs (snd st)).
 
 Definition sop_of_sx (o : sx) : sop sx := if Z.eqb (sx_Z (sx_nth 0 o)) 9 then SSave else SMod o.
-Definition run_saves (ops : list sx) (s : store) (st : fstate) (rm sm : nat) : store * fstate :=
-  save_run (fun s o => fst (step s (op_of_sx o))) (fun s => want_files s rm sm) (map sop_of_sx ops) s st.
+Definition run_saves (ops : list sx) (rm sm : nat) : (store * owners) * fstate :=
+  save_run hstep (want_files rm sm) sub_names (map sop_of_sx ops) (empty_store, no_owners) (mkfs [] []).
 
 (** * the run *)
 Definition sx_enc (d : json * files) : sx := L [nsx_of_json (fst d); sx_files (snd d)].
@@ -276,34 +323,36 @@ Definition run_C05 (x : sx) : sx :=
   let hist := Z.eqb (sx_Z (sx_nth 0 x)) 0 in
   let rm := sx_nat (sx_nth 0 (sx_nth 2 x)) in
   let sm := sx_nat (sx_nth 1 (sx_nth 2 x)) in
-  let '(s0, st0) := if hist then run_saves (sx_list (sx_nth 1 x)) empty_store (mkfs [] []) rm sm
-                    else (empty_store, mkfs [] []) in
+  let '((s0, ow), st0) := if hist then run_saves (sx_list (sx_nth 1 x)) rm sm
+                          else ((empty_store, no_owners), mkfs [] []) in
   let s := if hist then view s0 rm sm else dstore_of_sx (sx_nth 1 x) in
   let wf := triple (of_bool (wf_dstore s)) (A 1) 0 in
-  match canon s with
-  | None => L [wf; triple (A 0) (A 0) 0]
-  | Some c =>
-      let d := encode_c c in
+  (* a sub-store whose items do not all come before the later documents' items is reordered by loading *)
+  let kn := if arranged s ow then 0 else 1 in
+  match canon s, encode_o s ow with
+  | Some c, Some d =>
       (* the final save: a literal store is new (every stand-off member is flagged) *)
-      let st1 := if hist then st0 else mark [] (snd d) st0 in
+      let st1 := flag_all (map snd (ow_subs ow)) (if hist then st0 else mark [] (snd d) st0) in
       let disk := fs_disk (flush (snd d) st1) in
-      let o := sx_cstore c in
+      let o := sx_obs c s ow in
       let t := nsx_of_json (fst d) in
       let f := sx_files disk in
       let fspec := sx_files (rewrite_all (snd d) (fs_disk st1)) in
-      let s' := decode (fst d, disk) in
+      let s' := decode_o (fst d, disk) in
       let back := match s' with
-                  | Some s1 => match canon s1 with Some c1 => sx_cstore c1 | None => A 0 end
-                  | None => A 0
+                  | Some (s1, ow1) => match canon s1 with Some c1 => sx_obs c1 s1 ow1 | None => L [A 0] end
+                  | None => L [A 0]
                   end in
-      let lay := match s' with Some s1 => sx_layout s1 | None => A 0 end in
+      let lay := match s' with Some (s1, _) => sx_layout s1 | None => A 0 end in
       let again := match s' with
-                   | Some s1 => match encode s1 with
-                                | Some d1 => sx_eqb (sx_enc d1) (sx_enc d)
-                                | None => false
-                                end
-                   | None => false
+                   | Some (s1, ow1) => match encode_o s1 ow1 with
+                                       | Some d1 => (sx_eqb (nsx_of_json (fst d1)) t, sx_eqb (sx_files (snd d1)) (sx_files (snd d)))
+                                       | None => (false, false)
+                                       end
+                   | None => (false, false)
                    end in
-      L [wf; triple o o 0; triple t t 0; triple t t 0; triple f fspec 0; triple back o 0; triple lay lay 0;
-         triple (L [A 1; of_bool again; of_bool again; of_bool again]) (L [A 1; A 1; A 1; A 1]) 0]
+      L [wf; triple o o 0; triple t t 0; triple t t 0; triple f fspec 0; triple back o kn; triple lay lay 0;
+         triple (L [of_bool (sx_eqb back o); of_bool (fst again); of_bool (fst again); of_bool (snd again)])
+                (L [A 1; A 1; A 1; A 1]) kn]
+  | _, _ => L [wf; triple (A 0) (A 0) 0]
   end.
